@@ -85,6 +85,16 @@ CHECKS = {
             "complete per operation instance; states and sequences are sampled.",
             "Trusted: SQLite's atomic commit, the filesystem, python-axolotl (with the block-aligned padding shim). Process death only.",
             "DESIGN.md 4/C13"),
+    "C10": ("exploration",
+            "runtime monitor: reflective field-by-field comparator over serialise->parse executions of the real converter (all optional-field subsets per message kind, nested quotes) + peer-payload parse->serialise comparison on modelled protobuf fields",
+            "For each of the 10 payload kinds every subset of optional constructor fields (up to 2^10 per kind) and 6 000 (quick) / "
+            "400 000 (thorough) random objects with generated values (unicode, empty strings, zeros, blobs, quoted messages nested "
+            "to depth 3) go through message_to_protobytes/protobytes_to_message and through the message entity classes; a "
+            "reflective comparator walks the public properties of the attribute classes and requires every field the sender set "
+            "to come back equal. In the other direction protobuf payloads built directly with generated fields are parsed and "
+            "re-serialised and compared on the fields the library models.",
+            "Trusted: protobuf runtime; field types read from the generated descriptors. Unset fields may come back as defaults (counted).",
+            "DESIGN.md 4/C10"),
 }
 
 NOT_BUILT = "check not built yet in this session (planned, see DESIGN.md section 4)"
